@@ -395,20 +395,39 @@ def mk_para(heap, name):
 
 def r4_file_insert_append(rep, src):
     """documents as sequences of paragraph (P), newline token (W) and comment (C) objects"""
-    layouts = {'empty': '', 'P': 'P', 'P W': 'PW', 'P W P': 'PWP', 'P W P W': 'PWPW', 'P W C W P': 'PWCWP', 'C W P': 'CWP', 'P C': 'PC'}
+    # p: a paragraph without fields (an empty mapping); c: a comment as last line of the document, without its line end; w: a
+    # whitespace-only last line without its line end
+    layouts = {'empty': '', 'P': 'P', 'P W': 'PW', 'P W P': 'PWP', 'P W P W': 'PWPW', 'P W C W P': 'PWCWP', 'C W P': 'CWP', 'P C': 'PC',
+               'P W p(empty)': 'PWp', 'p(empty)': 'p', 'P c(unterminated)': 'Pc', 'P w(unterminated blank line)': 'Pw'}
     n = 0
     for lname, lay in layouts.items():
-        npar = lay.count('P')
-        for op, idxs in (('append', [None]), ('insert', list(range(0, npar + 2)))):
+        npar = lay.count('P') + lay.count('p')
+        for op, idxs in (('append', [None]), ('insert', list(range(0, npar + 2)) if lay.upper() == lay else [npar])):
             for idx in idxs:
                 log = []
                 heap = mk_heap(src, log)
+
+                def text_of(it_, args_, kw_):
+                    o_ = it_.h.objs[args_[0].name]
+                    if o_['__class__'] == 'CommentStandIn':
+                        return '# c' if args_[0].name == '@open' else '# c\n'
+                    return o_.get('text', '')
+                heap.hooks['.convert_to_text'] = text_of
                 objs = []
                 pc = 0
                 for ch in lay:
                     if ch == 'P':
                         pc += 1
                         objs.append(mk_para(heap, '@P%d' % pc))
+                    elif ch == 'p':
+                        pc += 1
+                        e_ = mk_para(heap, '@P%d' % pc)
+                        del heap.objs[heap.objs[e_.name]['_kvpair_elements'].name]['entries'][:]
+                        objs.append(e_)
+                    elif ch == 'w':
+                        objs.append(heap.alloc('Deb822WhitespaceToken', {'text': '  ', 'parent_element': None}, name='@open'))
+                    elif ch == 'c':
+                        objs.append(heap.alloc('CommentStandIn', {'parent_element': None}, name='@open'))
                     elif ch == 'W':
                         objs.append(heap.alloc('Deb822WhitespaceToken', {'text': '\n', 'parent_element': None}))
                     else:
@@ -430,7 +449,7 @@ def r4_file_insert_append(rep, src):
                     continue
                 seq, problems = H.read_list(heap, lst)
                 elems = [heap.objs[nd.name]['value'] for nd in seq]
-                kinds = ['N' if e.name == '@NEW' else 'P' if heap.objs[e.name].get('#kind') == 'P' else
+                kinds = ['N' if e.name == '@NEW' else 'P' if heap.objs[e.name].get('#kind') == 'P' else 'o' if e.name == '@open' else
                          'W' if heap.objs[e.name]['__class__'] == 'Deb822WhitespaceToken' else 'C' for e in elems]
                 paras = [e.name for e in elems if heap.objs[e.name].get('#kind') == 'P']
                 old = ['@P%d' % (i + 1) for i in range(npar)]
@@ -445,8 +464,18 @@ def r4_file_insert_append(rep, src):
                 s = ''.join(kinds)
                 p = s.find('N')
                 if p >= 0:
+                    # an unterminated last line needs its line end first (for a blank line that is the separator already), then the
+                    # separator: two newline tokens after an open comment, one after an open blank line
+                    if 'o' in s and s.index('o') < p:
+                        between = s[s.index('o') + 1:p]
+                        need_w = 2 if 'c' in lay else 1
+                        if between.count('W') < need_w or set(between) - {'W'}:
+                            problems.append('the document ends with %s; %d newline token(s) are placed before the new paragraph where %d are needed (layout %s): %s' % (
+                                'a comment line without line end' if 'c' in lay else 'a whitespace-only line without line end', between.count('W'), need_w, s,
+                                'the single newline only ends the comment line and the new paragraph joins the one before it' if 'c' in lay else
+                                'the new field is glued to the blanks and is read as a continuation line of the field before'))
                     # a paragraph directly adjacent to another paragraph/comment merges with it when re-parsed
-                    if p > 0 and s[p - 1] != 'W':
+                    elif p > 0 and s[p - 1] != 'W':
                         problems.append('no separating newline token between the preceding %s and the new paragraph (layout %s): they merge on re-parse'
                                         % ('paragraph' if s[p - 1] == 'P' else 'comment', s))
                     if p + 1 < len(s) and s[p + 1] != 'W':
